@@ -80,7 +80,8 @@ def SSys.findDomain (s : SSys α) (n : Nat) (domain : String) (v : Vec α) : Str
 
 def joinWarn (l : List String) : String := " ".intercalate l
 
-/-- one iteration of the per-node loop of `solve()`; returns the row and the new running domain -/
+/-- one iteration of the per-node loop of `solve()`; `dname` is the domain inherited from the first
+    parent (for a root: the running value); returns the row and the node's own domain -/
 def SSys.compRow (s : SSys α) (phase : String) (ta : α) (v i : Vec α) (st : St)
     (n : Nat) (dname : String) : Row α × String :=
   match s.node? n with
@@ -105,7 +106,7 @@ def SSys.compRow (s : SSys α) (phase : String) (ta : α) (v i : Vec α) (st : S
       | none => vget v n + c.rs * ii
       | some p => vget v p
     let pn := if root then ""
-      else if muxSel then s.parentName (sel.getD 0)    -- system.py:963 — parent name *of the selected input*
+      else if muxSel then s.nameOf (sel.getD 0)        -- the selected input itself
       else s.parentName n
     let io := if root then vget i n
       else if nd.childs.isEmpty then 0 else s.childCurr n i v st
@@ -123,11 +124,18 @@ def SSys.compRow (s : SSys α) (phase : String) (ta : α) (v i : Vec α) (st : S
        tr := if isSrc then none else some r.tr, tp := if isSrc then none else some r.tp,
        ener := some (calcEnergy s.phases phase r.pwr), warn := joinWarn w }, dname')
 
-/-- all component rows of one phase, threading the running domain name -/
+/-- all component rows of one phase.  The loop keeps `ndomain` (node ↦ its domain) and the running
+    `dname`; a non-root node starts from the domain of its first parent. -/
 def SSys.compRows (s : SSys α) (phase : String) (ta : α) (v i : Vec α) (st : St) : List (Row α) :=
-  (s.topo.foldl (init := (([] : List (Row α)), "none")) fun acc n =>
-    let (r, d) := s.compRow phase ta v i st n acc.2
-    (acc.1 ++ [r], d)).1
+  (s.topo.foldl (init := (([] : List (Row α)), "none", ([] : List (Nat × String)))) fun acc n =>
+    let (rows, dname, nd) := acc
+    let start := match s.node? n with
+      | some node => (match node.parents with
+          | [] => dname
+          | p :: _ => (nd.lookup p).getD dname)
+      | none => dname
+    let (r, d) := s.compRow phase ta v i st n start
+    (rows ++ [r], d, (n, d) :: nd)).1
 
 def optSum (l : List (Option α)) : α := sumL (l.filterMap id)
 
@@ -228,15 +236,17 @@ def railRep (t : Table α) : List (RailRow α) :=
   let all := t.phases.flatMap fun pt => pt.2.comps
   let rails := ((all.map (·.railIn)).eraseDups).filter (· != "")
   t.phases.flatMap fun pt =>
-    rails.map fun r =>
+    rails.filterMap fun r =>
       let rows := pt.2.comps.filter (·.railIn == r)
-      let p := optSum (rows.map (·.pwr))
-      let l := optSum (rows.map (·.loss))
-      let ws : List String := (rows.map (·.warn)).eraseDups
-      { phase := pt.1, rail := r, volt := ((rows.head?).bind (·.vin)).getD 0,
-        curr := optSum (rows.map (·.iin)), pwr := p, loss := l,
-        eff := if isZ l then 100 else 100 * p / (p + l),
-        warn := if ws.length > 1 then ws.filter (· != "") else [] }
+      if rows.isEmpty then none        -- a rail that feeds nothing in this phase is not listed
+      else
+        let p := optSum (rows.map (·.pwr))
+        let l := optSum (rows.map (·.loss))
+        let ws : List String := (rows.map (·.warn)).eraseDups
+        some { phase := pt.1, rail := r, volt := ((rows.head?).bind (·.vin)).getD 0,
+               curr := optSum (rows.map (·.iin)), pwr := p, loss := l,
+               eff := if isZ l then 100 else 100 * p / (p + l),
+               warn := ws.filter (· != "") }
 
 end
 end SysLoss
